@@ -925,6 +925,9 @@ func (g *Engine) observe(id int, p Profile) {
 		}
 	}
 	sort.Slice(mintObs, func(i, j int) bool { return mintObs[i][0] < mintObs[j][0] })
+	if credits == nil {
+		credits = []int{}
+	}
 	sort.Ints(credits)
 	sort.Ints(lost)
 	if b.Uncles == nil {
